@@ -393,14 +393,14 @@ impl<K: CacheKey + 'static> AsyncCache<K> for MemoryCache<K> {
 
         if let Some(entry) = self.storage.get(key) {
             if entry.is_expired() {
-                // Need to collect info and drop the guard before removing
-                let size_bytes = entry.size_bytes;
                 drop(entry); // Drop the guard before attempting to remove
                 #[cfg(feature = "verif-hooks")]
                 crate::verif_hooks::sched_point("mem.get.expired");
 
-                // Remove expired entry
-                if self.storage.remove(key).is_some() {
+                // Remove the entry only if it is still expired: a concurrent put may
+                // have replaced it since the guard was dropped
+                if let Some((_, removed)) = self.storage.remove_if(key, |_, e| e.is_expired()) {
+                    let size_bytes = removed.size_bytes;
                     #[cfg(feature = "verif-hooks")]
                     crate::verif_hooks::sched_point("mem.get.removed");
                     self.entry_count.fetch_sub(1, Ordering::Relaxed);
@@ -474,14 +474,14 @@ impl<K: CacheKey + 'static> AsyncCache<K> for MemoryCache<K> {
     async fn contains(&self, key: &K) -> CacheResult<bool> {
         if let Some(entry) = self.storage.get(key) {
             if entry.is_expired() {
-                // Need to collect info and drop the guard before removing
-                let size_bytes = entry.size_bytes;
                 drop(entry); // Drop the guard before attempting to remove
                 #[cfg(feature = "verif-hooks")]
                 crate::verif_hooks::sched_point("mem.contains.expired");
 
-                // Clean up expired entry
-                if self.storage.remove(key).is_some() {
+                // Clean up the entry only if it is still expired: a concurrent put may
+                // have replaced it since the guard was dropped
+                if let Some((_, removed)) = self.storage.remove_if(key, |_, e| e.is_expired()) {
+                    let size_bytes = removed.size_bytes;
                     #[cfg(feature = "verif-hooks")]
                     crate::verif_hooks::sched_point("mem.contains.removed");
                     self.entry_count.fetch_sub(1, Ordering::Relaxed);
